@@ -391,3 +391,57 @@ func TestC09Lifetime(t *testing.T) {
 		}
 	}
 }
+
+// TestC09AcceptFault: connection IDs stay unique and positive across temporary
+// accept failures (descriptor exhaustion), run in a worker child process.
+func TestC09AcceptFault(t *testing.T) {
+	lab.SkipIfReplayOther(t, "acceptfault")
+	st := lab.GetStats("C09", "acceptfault")
+	st.SetRule("worker child process: 1..4 live bystander connections, then RLIMIT_NOFILE is lowered so that accept() fails repeatedly (EMFILE) for about 150 ms, then 40 more connections are opened and kept open; every connection's ConnectionID must be positive and pairwise different from all other live connections'; non-trivial = the accept failure was actually provoked; distinct by scenario")
+	defer lab.FlushAll()
+	exec := func(c c07Batch, st *lab.Stats) *lab.Fail {
+		cases := make([]interface{}, len(c.Scenarios))
+		for i := range c.Scenarios {
+			cases[i] = c.Scenarios[i]
+		}
+		res, err := lab.RunWorkers("c07", cases, 90*time.Second)
+		if err != nil {
+			st.Inconclusive(err.Error())
+			return nil
+		}
+		for i, r := range res {
+			s := c.Scenarios[i]
+			if r.Skipped != "" {
+				st.Inconclusive(fmt.Sprintf("scenario %+v skipped: %s", s, r.Skipped))
+				continue
+			}
+			st.Case(r.Delivered, lab.JSONKey([]interface{}{s, i}), fmt.Sprintf("bystanders=%d", s.Bystanders), fmt.Sprintf("delivered=%v", r.Delivered))
+			st.Sample(s)
+			var f *lab.Fail
+			switch {
+			case r.Died:
+				f = lab.Failf("process-died:"+s.Fault, "scenario %+v: server process died/hung: %s %s", s, r.ExitInfo, tailOf(r.Stderr, 600))
+			case !r.OK:
+				f = &lab.Fail{Fingerprint: r.FP, Message: r.Msg}
+			}
+			if f != nil && !st.Report(f, c07Batch{Scenarios: []c07Scenario{s}}) {
+				return f
+			}
+		}
+		return nil
+	}
+	if lab.ReplayInto(t, st, "acceptfault", exec) {
+		return
+	}
+	n := 3
+	if lab.Thorough() {
+		n = 12
+	}
+	var b c07Batch
+	for i := 0; i < n; i++ {
+		b.Scenarios = append(b.Scenarios, c07Scenario{Fault: "emfile-ids", Bystanders: 1 + i%4, Exchanges: 3})
+	}
+	if f := exec(b, st); f != nil {
+		t.Fatalf("%s", f.Error())
+	}
+}
